@@ -13,7 +13,7 @@ pub open spec fn is_chain(ends: Seq<Vec<Node>>, len: int, ch: Seq<(int, int)>) -
 }
 
 /// sum of connection costs and word costs along the chain (BOS contributes nothing)
-pub open spec fn chain_cost<C: ConnectorCost>(ends: Seq<Vec<Node>>, ch: Seq<(int, int)>, c: &C) -> int
+pub open spec fn chain_cost<C: CostModel>(ends: Seq<Vec<Node>>, ch: Seq<(int, int)>, c: &C) -> int
     decreases ch.len()
 {
     if ch.len() <= 1 { 0 } else {
@@ -37,7 +37,7 @@ pub proof fn lemma_chain_prefix(ends: Seq<Vec<Node>>, len: int, ch: Seq<(int, in
 }
 
 /// every stored node's cost is a lower bound for every chain that ends in it
-pub proof fn lemma_prefix_optimal<C: ConnectorCost>(l: Lattice, ch: Seq<(int, int)>, c: &C)
+pub proof fn lemma_prefix_optimal<C: CostModel>(l: Lattice, ch: Seq<(int, int)>, c: &C)
     requires l.wf(c), is_chain(l.ends@, l.len_char as int, ch),
     ensures at(l.ends@, ch.last()).min_cost as int <= chain_cost(l.ends@, ch, c),
     decreases ch.len()
@@ -75,7 +75,7 @@ pub open spec fn back_chain(ends: Seq<Vec<Node>>, e: int, k: int) -> Seq<(int, i
 }
 
 /// the back-pointer chain is a chain and realises exactly the stored cost
-pub proof fn lemma_backpointer_cost<C: ConnectorCost>(l: Lattice, e: int, k: int, c: &C)
+pub proof fn lemma_backpointer_cost<C: CostModel>(l: Lattice, e: int, k: int, c: &C)
     requires l.wf(c), 0 <= e <= l.len_char, 0 <= k < l.ends[e].len(),
     ensures
         is_chain(l.ends@, l.len_char as int, back_chain(l.ends@, e, k)),
@@ -110,7 +110,7 @@ pub proof fn lemma_backpointer_cost<C: ConnectorCost>(l: Lattice, e: int, k: int
 
 /// THEOREM C02 (optimality): for every chain ending at the boundary EOS hangs off, the stored EOS cost
 /// is at most the chain's cost plus the connection to EOS (left id 0); and the back-pointer chain attains it.
-pub proof fn thm_c02_minimum<C: ConnectorCost>(l: Lattice, ch: Seq<(int, int)>, c: &C)
+pub proof fn thm_c02_minimum<C: CostModel>(l: Lattice, ch: Seq<(int, int)>, c: &C)
     requires l.wf(c), l.eos_ok(c), is_chain(l.ends@, l.len_char as int, ch), ch.last().0 == l.eos.unwrap().start_node as int,
     ensures
         l.eos.unwrap().min_cost as int
@@ -171,7 +171,7 @@ pub proof fn lemma_back_path_is_chain(ends: Seq<Vec<Node>>, len: int, e: int, k:
 
 /// THEOREM C02 (total_cost): the node reported as the i-th pushed element stores exactly the cost of the
 /// back-pointer chain prefix that ends in it (accumulated cost from the sentence start up to that token).
-pub proof fn thm_c02_total_cost<C: ConnectorCost>(l: Lattice, i: int, c: &C)
+pub proof fn thm_c02_total_cost<C: CostModel>(l: Lattice, i: int, c: &C)
     requires l.wf(c), l.eos_ok(c),
         0 <= i < back_path(l.ends@, l.eos.unwrap().start_node as int, l.eos.unwrap().min_idx as int).len(),
     ensures ({
@@ -196,7 +196,7 @@ pub proof fn thm_c02_total_cost<C: ConnectorCost>(l: Lattice, i: int, c: &C)
 }
 
 /// reachability witness for the theorems' hypotheses: the canonical 0-length lattice with EOS on BOS
-pub proof fn witness_c02<C: ConnectorCost>(l: Lattice, c: &C)
+pub proof fn witness_c02<C: CostModel>(l: Lattice, c: &C)
     requires l.canonical(0), c.conn_wf(), Lattice::cost_room(0, c),
     ensures l.wf(c), is_chain(l.ends@, 0, seq![(0int, 0int)]),
 {
